@@ -285,7 +285,20 @@ def r18g(ctx):
         ctx.unknown("R18g", UP, "at least one coordinate allocation found", "")
 
 
+def r18h(ctx):
+    repo = ctx.repo
+    ctx.rule("R18h", "after k reflections the path travels in direction d0 * (-1)**k (the image of the receiver alternates sides): path and tracer agree on it", expected=2, kind="N")
+    want = NF().nf(parse_expr("initial_direction * (-1)**k"))
+    for q, m, k in ((UP, "_points", "self._reflections"), (UT, "_reflected_path", "reflections")):
+        fn = repo.member(q, m)
+        st = [n for n in ast.walk(fn) if isinstance(n, ast.Assign) and u(n.targets[0]) == "final_direction"]
+        ok = len(st) == 1 and NF().nf(parse_expr(u(st[0].value).replace(k, "k"))).equals(want)
+        ctx.check(ok, "R18h", f"{q}.{m}", "final_direction = initial_direction * (-1)**reflections", u(st[0].value) if st else "no assignment", key_detail="final direction",
+                  loc=ctx.loc("pyrex.ray_tracing", st[0] if st else fn))
+
+
 def run(ctx):
+    ctx.guard(r18h)
     ctx.guard(r18g)
     ctx.guard(r18f)
     ctx.guard(r18a)
@@ -297,6 +310,8 @@ def run(ctx):
 
 SELFTEST = {
     "faults": [
+        {"name": "-1**k for (-1)**k", "file": "pyrex/ray_tracing.py", "old": "            final_direction = initial_direction * (-1)**self._reflections", "new": "            final_direction = initial_direction * -1**self._reflections",
+         "rule": "R18h"},
         {"name": "reflection points inherit the dtype of the source", "file": "pyrex/ray_tracing.py", "old": "            points = np.zeros((self._reflections+2, 3))",
          "new": "            points = np.zeros((self._reflections+2, 3), dtype=self.from_point.dtype)", "rule": "R18g"},
         {"name": "level direct path skipped in both directions", "file": "pyrex/custom/layered_ice/ray_tracing.py", "old": "                         (self.z1-self.z0<0 and start_direction==-1))):",
